@@ -13,20 +13,20 @@ import (
 type XK int
 
 const (
-	XLit   XK = iota // integer literal
-	XVar             // variable read
-	XBin             // A Op B
-	XV               // vrt.V(Tag, A)
-	XB               // vrt.B(Tag, A)
-	XCall            // Name(Args...)
-	XNot             // !A
-	XStr             // string literal S
-	XRaw             // raw text S (same in both renderings)
-	XIndex           // Name[A]
-	XLen             // len(Name)
-	XAny             // any(A)
-	XIterCall        // call producing an iterator: Name(Args...)  (consumer/delegation)
-	XMethod          // A.Name(Args...)
+	XLit      XK = iota // integer literal
+	XVar                // variable read
+	XBin                // A Op B
+	XV                  // vrt.V(Tag, A)
+	XB                  // vrt.B(Tag, A)
+	XCall               // Name(Args...)
+	XNot                // !A
+	XStr                // string literal S
+	XRaw                // raw text S (same in both renderings)
+	XIndex              // Name[A]
+	XLen                // len(Name)
+	XAny                // any(A)
+	XIterCall           // call producing an iterator: Name(Args...)  (consumer/delegation)
+	XMethod             // A.Name(Args...)
 )
 
 type X struct {
@@ -82,18 +82,18 @@ type Case struct {
 
 type S struct {
 	K     SK
-	ID    int     `json:",omitempty"`
-	Name  string  `json:",omitempty"` // declared / assigned / closure name / range key
-	Name2 string  `json:",omitempty"` // range value
-	Op    string  `json:",omitempty"` // assignment operator, ++/--, range token (:= or =)
-	E     *X      `json:",omitempty"`
-	Init  *S      `json:",omitempty"`
-	Post  *S      `json:",omitempty"`
-	Body  []*S    `json:",omitempty"`
-	Else  []*S    `json:",omitempty"`
-	ElsIf bool    `json:",omitempty"` // Else holds exactly one SIf rendered as "else if"
-	Cases []*Case `json:",omitempty"`
-	Tag   int     `json:",omitempty"`
+	ID    int      `json:",omitempty"`
+	Name  string   `json:",omitempty"` // declared / assigned / closure name / range key
+	Name2 string   `json:",omitempty"` // range value
+	Op    string   `json:",omitempty"` // assignment operator, ++/--, range token (:= or =)
+	E     *X       `json:",omitempty"`
+	Init  *S       `json:",omitempty"`
+	Post  *S       `json:",omitempty"`
+	Body  []*S     `json:",omitempty"`
+	Else  []*S     `json:",omitempty"`
+	ElsIf bool     `json:",omitempty"` // Else holds exactly one SIf rendered as "else if"
+	Cases []*Case  `json:",omitempty"`
+	Tag   int      `json:",omitempty"`
 	Reads []string `json:",omitempty"`
 	// function literals
 	Params []string `json:",omitempty"`
@@ -118,7 +118,7 @@ type Func struct {
 	Gen    bool     // generator entry (returns Iter[Elem]); otherwise plain entry returning int
 	Params []string // int parameters
 	Elem   string
-	Named  bool // `(_ Iter[T])` result, bare returns
+	Named  bool   // `(_ Iter[T])` result, bare returns
 	Recv   string `json:",omitempty"` // method receiver type name ("" = function)
 	TParam bool   `json:",omitempty"` // generic: func Name[T any](...) — instantiated with int in the registry
 	Body   []*S
@@ -131,21 +131,21 @@ type Func struct {
 
 // File groups functions and raw declarations of one source file.
 type File struct {
-	Name  string
-	Funcs []*Func
-	Decls []string `json:",omitempty"` // raw top-level declarations (same text in both renderings except type names)
+	Name     string
+	Funcs    []*Func
+	Decls    []string `json:",omitempty"` // raw top-level declarations (same text in both renderings except type names)
 	RefDecls []string `json:",omitempty"`
-	UsesAPI bool // file imports the go-co API
-	Extern  []*Func `json:",omitempty"` // entries defined by raw declarations (registry only)
-	Imports []string `json:",omitempty"` // extra import lines (both renderings)
+	UsesAPI  bool     // file imports the go-co API
+	Extern   []*Func  `json:",omitempty"` // entries defined by raw declarations (registry only)
+	Imports  []string `json:",omitempty"` // extra import lines (both renderings)
 }
 
 type Prog struct {
-	Pkg    string
-	Import string // "dot" | "co" | "renamed"
-	SeqImported bool // the user file already imports seq (under its default name)
-	LoadTest    bool // compile with test packages loaded; the package then has an in-package test file that uses the API
-	Files  []*File
+	Pkg         string
+	Import      string // "dot" | "co" | "renamed"
+	SeqImported bool   // the user file already imports seq (under its default name)
+	LoadTest    bool   // compile with test packages loaded; the package then has an in-package test file that uses the API
+	Files       []*File
 }
 
 // Mode selects the rendering.
